@@ -147,44 +147,61 @@ func c15names(c *an.Ctx) {
 	if gtc == nil || vt == nil || vc == nil || fatal == nil {
 		return
 	}
-	// getTopicChan: success returns only validated names (channel: validated or empty)
-	for _, r := range an.Returns(gtc) {
-		if !isSuccessReturn(r) {
-			continue
-		}
-		t, ch := an.Resolve(r.Results[0]), an.Resolve(r.Results[1])
-		okT, okC := false, false
-		check := func(facts []an.Fact) (bool, bool) {
-			a, b := false, false
-			for _, f := range facts {
-				if call, ok := f.V.(*ssa.Call); ok && f.True {
-					if an.IsCallTo(call, vt) && an.SameValue(call.Call.Args[0], t) {
-						a = true
+	// getTopicChan: success returns only validated names (channel: validated or empty) – per path, so that a single-exit
+	// spelling (names blanked and err set, one return) is judged like the early-return one
+	{
+		validated := func(pred *ssa.Function, emptyOK bool) func(e an.Edge, st *an.PathState) bool {
+			return func(e an.Edge, st *an.PathState) bool {
+				for _, f := range st.FactsOnEdge(e) {
+					if call, ok := f.V.(*ssa.Call); ok && f.True && an.IsCallTo(call, pred) {
+						return true
 					}
-					if an.IsCallTo(call, vc) && an.SameValue(call.Call.Args[0], ch) {
-						b = true
+					if cmp, ok := f.AsCmp(); ok && emptyOK && cmp.Op == token.EQL {
+						if s, ok := an.ConstString(cmp.Y); ok && s == "" {
+							return true
+						}
 					}
 				}
-				if cmp, ok := f.AsCmp(); ok && cmp.Op == token.EQL && an.SameValue(cmp.X, ch) {
-					if s, ok := an.ConstString(cmp.Y); ok && s == "" {
-						b = true
+				return false
+			}
+		}
+		q1 := &an.PathQ{Fn: gtc, StartEntry: true, AllAlias: true, Sink: sinkSuccessReturn, CutEdge: validated(vt, false)}
+		w1, f1 := q1.Find()
+		q2 := &an.PathQ{Fn: gtc, StartEntry: true, AllAlias: true, Sink: sinkSuccessReturn, CutEdge: validated(vc, true)}
+		w2, f2 := q2.Find()
+		// what is validated is what is returned
+		same := func(idx int, pred *ssa.Function) bool {
+			for _, rc := range returnCases(gtc, idx) {
+				if _, isC := rc.val.(*ssa.Const); isC {
+					continue
+				}
+				ok := false
+				for _, vcall := range an.CallsTo(gtc, pred) {
+					if an.SameValue(vcall.Common().Args[0], rc.val) {
+						ok = true
 					}
+					for _, o := range an.Origins(vcall.Common().Args[0]) {
+						if o == rc.val || an.SameValue(o, rc.val) {
+							ok = true
+						}
+					}
+				}
+				if !ok {
+					return false
 				}
 			}
-			return a, b
+			return true
 		}
-		blk := r.Block()
-		if len(blk.Preds) <= 1 {
-			okT, okC = check(an.FactsAt(blk))
+		okT, okC := !f1 && same(0, vt), !f2 && same(1, vc)
+		w := w1
+		if okT {
+			w = w2
+		}
+		if okT && okC {
+			c.OK(gtc, "getTopicChan returns validated names", gtc.Pos(), "")
 		} else {
-			okT, okC = true, true
-			for _, p := range blk.Preds {
-				a, b := check(an.FactsOnEdge(an.Edge{From: p, To: blk}))
-				okT = okT && a
-				okC = okC && b
-			}
+			c.Bad(gtc, "getTopicChan returns validated names", gtc.Pos(), sprintf("getTopicChan can succeed with an unvalidated name (topic ok=%v, channel ok-or-empty=%v): arbitrary bytes become registration keys served to every client", okT, okC), w)
 		}
-		c.Check(okT && okC, gtc, "getTopicChan returns validated names", r.Pos(), "", sprintf("getTopicChan can succeed with an unvalidated name (topic ok=%v, channel ok-or-empty=%v): arbitrary bytes become registration keys served to every client", okT, okC))
 	}
 	peerF := c.P.Field("nsqlookupd", "ClientV1", "peerInfo")
 	for _, cmd := range []string{"REGISTER", "UNREGISTER"} {
